@@ -153,6 +153,7 @@ class Config:
         self.keyword_literals = True
         self.tight_operators = True
         self.transactions = True
+        self.placeholders = True
         for k, v in kw.items():
             if not hasattr(self, k):
                 raise TypeError(k)
@@ -343,6 +344,13 @@ class Gen:
             i = self.dollar(gap)
             self.s.features.add('dollar')
             return i, i, 'dollar'
+        if 0.992 <= x < 0.998 and cfg.placeholders:
+            # bind parameters: ?  %s  %(name)s  :name  $1
+            i = self.emit('name', rng.choice(['?', '%s', '%(name)s', ':p1',
+                                              '$1', ':name', '%(x_1)s']),
+                          gap if gap is not None else self.g())
+            self.s.features.add('placeholder')
+            return i, i, 'placeholder'
         after_not = bool(self.s.toks) and self.s.toks[-1].kind == 'kw' \
             and self.s.toks[-1].text.upper() in ('NOT', 'IS')
         # ('NOT NULL' is one keyword for the lexer)
@@ -422,17 +430,19 @@ class Gen:
             elif rng.random() < 0.3:
                 n = rng.choice([1, 1, 2, 3])
         pure = kind not in ('case', 'dollar', 'neg', 'null', 'bool')
+        last_kind = kind
         for _ in range(n):
             op = rng.choice(['+', '-', '*', '/', '||', '%'])
             # operators may be written without blanks where the lexer cannot
             # fuse them with a neighbour ('%s' is a placeholder, '-1' a
             # number, '--' / '/*' comment openers)
             tight = op in ('+', '*', '||') and rng.random() < 0.3 \
-                and self.cfg.tight_operators
+                and self.cfg.tight_operators and last_kind != 'placeholder'
             i_op = self.emit('op', op, 'opt' if tight else 'req')
             n_before = len(self.s.toks)
             _, l, k2 = self.atom(depth, 'opt' if tight else 'req')
-            if tight and k2 in ('neg', 'num', 'dollar'):
+            last_kind = k2
+            if tight and k2 in ('neg', 'num', 'dollar', 'placeholder'):
                 # '+-x', '+.5': keep a blank after the operator
                 self.s.toks[n_before].gap = 'req'
             pure = pure and k2 not in ('case', 'dollar', 'neg', 'null',
